@@ -100,7 +100,20 @@ def gen_c01(tier, rng):
     s += gen_family(rng, "n", "mutex", FIFO, scale(tier, 6, 60), [3, 4], [2, 3], lambda r: "rand %d %d" % (scale(tier, 200, 2000), r.randint(1, 1 << 30)))
     s += gen_lag_sweep(tier, rng, "s", mode=lambda r: "rand %d %d" % (scale(tier, 12, 60), r.randint(1, 1 << 30)))
     s += gen_long_runs(tier, rng, "jdk")
+    s += gen_poll_storm(tier, rng)
     return s
+
+def gen_poll_storm(tier, rng, prefix="ps"):
+    """many consumers on a well-filled queue: one Poll call falls off the list (its node was consumed and self-linked by
+    others) several times IN A ROW; many schedules, every 5th replayed on the model, all judged by the monitors"""
+    out = []
+    for i in range(scale(tier, 4, 16)):
+        npre = rng.choice([12, 14, 16])
+        nt = rng.choice([3, 4])
+        ths = [["p"] * rng.choice([1, 2])] + [["p"] * rng.choice([4, 5]) for _ in range(nt - 1)]
+        m = "rand %d %d" % (scale(tier, 12000, 60000), rng.randint(1, 1 << 30)) if i % 2 == 0 else "pct %d %d %d" % (scale(tier, 12000, 60000), rng.randint(1, 1 << 30), rng.choice([5, 8]))
+        out.append(conc.Scn("%s%d" % (prefix, i), "jdk", list(range(1, npre + 1)), ths, m, {"sample": 5}))
+    return out
 
 def gen_c07(tier, rng):
     s = []
